@@ -190,6 +190,9 @@ pub struct EnvSpec {
   pub pointer: Option<Vec<u8>>,
   /// pointer relative to the transaction: per-mille of total output value
   pub pointer_permille: Option<u32>,
+  /// pointer to the first sat of the k-th input (modulo the input count)
+  #[serde(default)]
+  pub pointer_input: Option<u32>,
   pub parents: Vec<IdRef>,
   pub delegate: Option<IdRef>,
   /// rune commitment tag contents
